@@ -429,20 +429,30 @@ def _entry_points(col: Collector, rule="C01.R7"):
 
 
 def check(col: Collector):
-    _set_value_protocol(col)
-    _trigger_closure(col)
-    check_toposort(col, "C01.R3")
-    _recursion(col)
-    _task_bodies(col)
-    _effect_precision(col)
-    _entry_points(col)
+    with col.rule():
+        _set_value_protocol(col)
+    with col.rule():
+        _trigger_closure(col)
+    with col.rule():
+        check_toposort(col, "C01.R3")
+    with col.rule():
+        _recursion(col)
+    with col.rule():
+        _task_bodies(col)
+    with col.rule():
+        _effect_precision(col)
+    with col.rule():
+        _entry_points(col)
     # in-place updates (`ref += x`) are assignments of (current expression OP x) or (current value OP x)
     from . import c04
-    c04.inplace_rules(col, "C01.R8")
+    with col.rule():
+        c04.inplace_rules(col, "C01.R8")
     # a dependant is recomputed only if the location it reads is among its reported dependencies, and it is found only
     # through indices in which a removed definition left nothing behind
     from . import c02, c05
     from .common import shared
-    shared(col, "C01.R9", [c05._readset, c05._accumulator, c05._structure],
-           why="an expression is re-evaluated only when one of its reported dependencies is assigned")
-    c02.inverse_effects(col, "C01.R10")
+    with col.rule():
+        shared(col, "C01.R9", [c05._readset, c05._accumulator, c05._structure],
+               why="an expression is re-evaluated only when one of its reported dependencies is assigned")
+    with col.rule():
+        c02.inverse_effects(col, "C01.R10")
